@@ -83,8 +83,10 @@ def _child(spec, script, args, cwd, stdin_fd, out_fd, err_fd, trace_fd, plan, en
         env = dict(spec.get("env", {}))
         env.update(env_extra or {})
         env = {k: v for k, v in env.items() if v is not None}
-        tz = spec.get("tz")       # hours east of UTC (may be fractional) or None
-        if tz is not None:
+        tz = spec.get("tz")       # hours east of UTC (may be fractional), a POSIX TZ string, or None
+        if isinstance(tz, str):
+            env.setdefault("TZ", tz)     # e.g. "CET-1CEST,M3.5.0,M10.5.0/3" (with daylight saving time)
+        elif tz is not None:
             # POSIX TZ string (needs no zoneinfo files): "VTZ-9" is UTC+9, "VTZ8" is UTC-8
             a = abs(tz)
             env.setdefault("TZ", "VTZ%s%d:%02d" % ("-" if tz > 0 else "", int(a), int(round((a - int(a)) * 60))))
@@ -93,11 +95,10 @@ def _child(spec, script, args, cwd, stdin_fd, out_fd, err_fd, trace_fd, plan, en
         time.tzset()
         os.umask(spec.get("umask", 0o022))
         uid = spec.get("uid", 1000)
-        if "TRASH_PUT_FAKE_UID_FOR_TESTING" not in env and not spec.get("no_fake_uid_env"):
-            pass  # put reads os.getuid() (patched) when the variable is unset
         vols = ["/"] + list(spec.get("vols", []))
-        shim.set_world(spec.get("partitions", vols), uid, parse_now(spec.get("now", "2020-02-02T02:02:02")),
-                       int((tz or 0) * 3600))
+        vnow = parse_now(spec.get("now", "2020-02-02T02:02:02"))
+        _e, off = shim.set_epoch(vnow)
+        shim.set_world(spec.get("partitions", vols), uid, vnow, int(off), spec.get("fstype"))
         if plan and plan.get("nofile"):
             # a small descriptor table: leaked descriptors become EMFILE
             resource.setrlimit(resource.RLIMIT_NOFILE,
